@@ -66,3 +66,10 @@ Theorem C11_source_arithmetic_is_the_model (S : csums) mx my rmse :
   gen_cmp_rrmse N X Y XY XX YY RR mx my rmse == rmse / my /\ gen_cmp_returns_ok = true.
 Proof. exact (tie_compare S mx my rmse). Qed.
 Print Assumptions C11_source_arithmetic_is_the_model.
+Theorem C11_source_block_sums_are_the_model (b : list px) :
+  block_sums b = {| cX := qsum (fun p => gen_cmp_term_src_sum (fst p) (snd p)) b; cY := qsum (fun p => gen_cmp_term_ref_sum (fst p) (snd p)) b;
+                    cXX := qsum (fun p => gen_cmp_term_src2_sum (fst p) (snd p)) b; cYY := qsum (fun p => gen_cmp_term_ref2_sum (fst p) (snd p)) b;
+                    cXY := qsum (fun p => gen_cmp_term_src_ref_sum (fst p) (snd p)) b;
+                    cRes := qsum (fun p => gen_cmp_term_res2_sum (fst p) (snd p)) b; cN := inject_Z (Z.of_nat (List.length b)) |} /\
+  gen_cmp_joint_mask_ok = true /\ gen_cmp_accumulate_ok = true.
+Proof. exact (compare_block_sums_tied b). Qed.
